@@ -34,10 +34,13 @@ def _own_output(prog: Program, ci: ClassInfo) -> list[tuple[ast.AST, str]]:
     return out
 
 
-def check_blank_flags(prog: Program, res: Result, rule: str) -> None:
+def check_blank_flags(prog: Program, res: Result, rule: str, *, only_module: str | None = None, floor: int | None = None) -> None:
+    """only_module: restrict the obligation to the Node classes of one module (the inheritance tags for C08)."""
     node_base = prog.cls("liquid2.ast.Node")
     n = 0
     for ci in prog.subclasses(node_base, strict=True):
+        if only_module is not None and ci.file != only_module:
+            continue
         if any(b.attr == "abstractmethod" if isinstance(b, ast.Attribute) else False for b in []):
             continue
         own = _own_output(prog, ci)
@@ -103,7 +106,9 @@ def check_blank_flags(prog: Program, res: Result, rule: str) -> None:
                 message=f"{ci.name} emits its own text ({own[0][1]}) but its blank flag is `{norm(v, 60)}`: output can be suppressed as if it were whitespace",
                 what=what,
             )
-    res.floor(rule, "node classes examined for blank soundness", n, 20)
+    res.floor(rule, "node classes examined for blank soundness", n, 20 if floor is None else floor)
+    if only_module is not None:
+        return
     # BlockNode derives blank from its children; ConditionalBlockNode from its block
     bn = prog.cls("liquid2.ast.BlockNode")
     init = bn.methods.get("__init__")
